@@ -188,7 +188,7 @@ void pbt_property(Ctx &c) {
     case 3:   // order of the standards
         for (size_t i = s2.stds.size(); i > 1; i--) { size_t j = c.draw(i); if (j != i - 1) changed = true; std::swap(s2.stds[i - 1], s2.stds[j]); }
         break;
-    case 4: o2.ab_scale = polar(0.1L + 9.9L * c.unit(), 2 * M_PIl * c.unit()); changed = true; break;
+    case 4: o2.ab_scale = polar(c.boolean() ? 0.1L + 9.9L * c.unit() : std::pow(10.0L, -12 + 24 * c.unit()), 2 * M_PIl * c.unit()); changed = true; break;     // ordinary or extreme (1e-12 .. 1e12) common scale
     case 5: o2.unrelated = true; changed = true; break;
     case 6: o2.per_frequency = true; changed = sc.F > 1; break;
     case 7: s2.type = sc.type == vm::E12 ? vm::UE14 : vm::E12; for (auto &b : s2.box) b.type = s2.type; changed = true; break;
